@@ -24,6 +24,7 @@ package main
 import (
 	"fmt"
 	"go/ast"
+	"go/token"
 	"go/types"
 	"sort"
 	"strings"
@@ -40,7 +41,8 @@ type c03Env struct {
 	par    map[ast.Node]ast.Node
 	handle *FuncInfo
 	openFi *FuncInfo
-	lit    *ast.FuncLit
+	loop   *c03Body   // the function body that receives from the parser and calls handleSequence
+	chain  []*c03Body // goroutine root … loop body (root first)
 	// INPUT context
 	reach     []*c03Fn
 	csiParams *types.Var
@@ -121,21 +123,14 @@ func runC03(c *Ctx) {
 	if x.csiParams == nil {
 		c.undecided("C03.h", "setup/ansi.CSI.Parameters", 0, "field not found")
 	}
-	ast.Inspect(x.openFi.Decl.Body, func(n ast.Node) bool {
-		if gs, ok := n.(*ast.GoStmt); ok && x.lit == nil {
-			if l, ok := gs.Call.Fun.(*ast.FuncLit); ok && containsNode(l.Body, func(m ast.Node) bool { return isCallTo(x.info, m, "vaxis.Vaxis.handleSequence") }) {
-				x.lit = l
-			}
-		}
-		return true
-	})
-	if x.lit == nil {
-		c.undecided("C03.e", "vaxis.(*Vaxis).openTty/input goroutine", x.openFi.Decl.Pos(), "no `go func(){…handleSequence…}()` found in openTty")
+	x.findInputGoroutine()
+	if x.loop == nil {
+		c.undecided("C03.e", "vaxis/input goroutine", x.openFi.Decl.Pos(), "no function body started with `go` (directly or through a wrapper) that calls handleSequence was found")
 	}
 
 	x.ruleA()
 	x.ruleH()
-	if x.lit != nil {
+	if x.loop != nil {
 		x.buildReach()
 		x.ruleB()
 		x.ruleC()
@@ -418,7 +413,7 @@ func (x *c03Env) ruleH() {
 			n++
 			key := fmt.Sprintf("%s/use of handleSequence", fi.Name)
 			call, isCall := x.par[sel].(*ast.CallExpr)
-			inLit := x.lit != nil && x.lit.Body.Pos() <= sel.Pos() && sel.End() <= x.lit.Body.End()
+			inLit := x.loop != nil && x.loop.body.Pos() <= sel.Pos() && sel.End() <= x.loop.body.End()
 			switch {
 			case !isCall || call.Fun != sel:
 				c.bad("C03.h", key, sel.Pos(), "handleSequence is taken as a method value: its inputs are no longer only the parser's output")
@@ -447,7 +442,7 @@ func (x *c03Env) fromParser(e ast.Expr) bool {
 	// type switch rebinding: find `switch v := w.(type)` whose implicit objects include obj
 	for hop := 0; hop < 3; hop++ {
 		found := false
-		ast.Inspect(x.lit.Body, func(n ast.Node) bool {
+		ast.Inspect(x.loop.body, func(n ast.Node) bool {
 			ts, ok := n.(*ast.TypeSwitchStmt)
 			if !ok {
 				return true
@@ -473,7 +468,7 @@ func (x *c03Env) fromParser(e ast.Expr) bool {
 		}
 	}
 	ok = false
-	ast.Inspect(x.lit.Body, func(n ast.Node) bool {
+	ast.Inspect(x.loop.body, func(n ast.Node) bool {
 		cc, isCC := n.(*ast.CommClause)
 		if !isCC || cc.Comm == nil {
 			return true
@@ -496,4 +491,133 @@ func (x *c03Env) fromParser(e ast.Expr) bool {
 		return true
 	})
 	return ok
+}
+
+// c03Body is a function body: a declared function/method or a function literal.
+type c03Body struct {
+	body *ast.BlockStmt
+	name string
+	fi   *FuncInfo    // nil for a literal
+	lit  *ast.FuncLit // nil for a declaration
+	pos  token.Pos
+}
+
+func (x *c03Env) bodyGraph(b *c03Body) *FG {
+	if b.fi != nil {
+		return x.c.P.Graph(b.fi)
+	}
+	return x.c.P.GraphOfLit(x.pk, b.name, b.lit)
+}
+
+// enclosingBody: the innermost function literal or declaration containing n.
+func (x *c03Env) enclosingBody(n ast.Node) *c03Body {
+	for cur := x.par[n]; cur != nil; cur = x.par[cur] {
+		switch t := cur.(type) {
+		case *ast.FuncLit:
+			decl := "?"
+			for up := x.par[t]; up != nil; up = x.par[up] {
+				if fd, ok := up.(*ast.FuncDecl); ok {
+					decl = "vaxis." + funcDeclName(fd)
+					break
+				}
+			}
+			return &c03Body{body: t.Body, name: decl + "$input", lit: t, pos: t.Pos()}
+		case *ast.FuncDecl:
+			fi := x.c.P.Func("vaxis." + funcDeclName(t))
+			if fi == nil || t.Body == nil {
+				return nil
+			}
+			return &c03Body{body: t.Body, name: fi.Name, fi: fi, pos: t.Pos()}
+		}
+	}
+	return nil
+}
+
+// findInputGoroutine: the body that calls handleSequence, and the chain of bodies from the `go` statement
+// that starts it: `go func(){…}()`, `go vx.inputLoop()`, `go func(){ defer …; vx.inputLoop() }()`, …
+func (x *c03Env) findInputGoroutine() {
+	// the call of handleSequence whose enclosing body also receives from the parser (else: the first call)
+	var calls []ast.Node
+	for _, fi := range x.c.P.FuncsIn("vaxis") {
+		if fi.Decl.Body == nil {
+			continue
+		}
+		ast.Inspect(fi.Decl.Body, func(n ast.Node) bool {
+			if isCallTo(x.info, n, "vaxis.Vaxis.handleSequence") {
+				calls = append(calls, n)
+			}
+			return true
+		})
+	}
+	var loop *c03Body
+	for _, call := range calls {
+		b := x.enclosingBody(call)
+		if b == nil {
+			continue
+		}
+		if loop == nil {
+			loop = b
+		}
+		if containsNode(b.body, func(m ast.Node) bool { return isCallTo(x.info, m, "ansi.Parser.Next") }) {
+			loop = b
+			break
+		}
+	}
+	if loop == nil {
+		return
+	}
+	chain := []*c03Body{loop}
+	cur := loop
+	for hop := 0; hop < 4; hop++ {
+		// how is cur invoked?
+		var invocations []*ast.CallExpr
+		if cur.lit != nil {
+			if ce, ok := x.par[cur.lit].(*ast.CallExpr); ok && ce.Fun == ast.Expr(cur.lit) {
+				invocations = append(invocations, ce)
+			}
+		} else {
+			bad := false
+			for id, o := range x.info.Uses {
+				if o != types.Object(cur.fi.Obj) {
+					continue
+				}
+				var e ast.Node = id
+				if sel, ok := x.par[id].(*ast.SelectorExpr); ok && sel.Sel == id {
+					e = sel
+				}
+				if ce, ok := x.par[e].(*ast.CallExpr); ok && ce.Fun == e {
+					invocations = append(invocations, ce)
+				} else {
+					bad = true // used as a value
+				}
+			}
+			if bad {
+				return
+			}
+			sort.Slice(invocations, func(i, j int) bool { return invocations[i].Pos() < invocations[j].Pos() })
+		}
+		if len(invocations) == 0 {
+			return
+		}
+		allGo := true
+		var next *c03Body
+		for _, ce := range invocations {
+			if gs, ok := x.par[ce].(*ast.GoStmt); ok && gs.Call == ce {
+				continue
+			}
+			allGo = false
+			if nb := x.enclosingBody(ce); nb != nil && next == nil {
+				next = nb
+			}
+		}
+		if allGo {
+			x.loop, x.chain = loop, chain
+			return
+		}
+		if len(invocations) != 1 || next == nil {
+			return // called both as a goroutine and synchronously, or from several places
+		}
+		chain = append([]*c03Body{next}, chain...)
+		cur = next
+	}
 }
